@@ -3,16 +3,18 @@ from __future__ import annotations
 
 import hashlib
 import importlib.util
+import contextlib
 import json
 import multiprocessing as mp
 import os
 import shutil
+import signal
 import subprocess
 import sys
 import tempfile
 import time
 import traceback
-from typing import Any, Callable, Dict, Iterable, List, Optional, Tuple
+from typing import Any, Callable, Dict, Iterable, Iterator, List, Optional, Tuple
 
 VERIF = os.path.dirname(os.path.dirname(os.path.abspath(__file__)))
 REPO = os.environ.get("VERIF_REPO", "/repo")
@@ -204,10 +206,38 @@ _POOL_FN: Any = None
 _POOL_ITEMS: List[Any] = []
 
 
+class TimeLimit(BaseException):
+    """raised by the watchdog; a BaseException so that it is never mistaken for an outcome of the code under test"""
+
+
+@contextlib.contextmanager
+def time_limit(seconds: float) -> Iterator[None]:
+    """SIGALRM watchdog around code under test (main thread of a worker process); nests: the outer limit is re-armed"""
+    def on_alarm(sig: int, frame: Any) -> None:
+        raise TimeLimit(f"no result within {seconds:.0f} s")
+
+    old = signal.signal(signal.SIGALRM, on_alarm)
+    prev = signal.setitimer(signal.ITIMER_REAL, seconds)
+    t0 = time.time()
+    try:
+        yield
+    finally:
+        signal.setitimer(signal.ITIMER_REAL, 0)
+        signal.signal(signal.SIGALRM, old)
+        if prev[0] > 0:
+            signal.setitimer(signal.ITIMER_REAL, max(0.05, prev[0] - (time.time() - t0)))
+
+
+def job_limit() -> float:
+    v = os.environ.get("VERIF_JOB_TIMEOUT")
+    return float(v) if v else (1500.0 if tier() == "quick" else 10800.0)
+
+
 def _pool_call(i: int) -> Any:
     fn, item = _POOL_FN, _POOL_ITEMS[i]
     try:
-        r = fn(item)
+        with time_limit(job_limit()):
+            r = fn(item)
         if isinstance(r, dict):
             from . import xsolver
 
@@ -219,6 +249,8 @@ def _pool_call(i: int) -> Any:
         return ("ok", r)
     except Inconclusive as e:
         return ("inconclusive", f"{item!r:.80}: {e}")
+    except TimeLimit as e:
+        return ("inconclusive", f"{item!r:.80}: job exceeded its time limit ({e}); a hang of the code under test or of the engine")
     except BaseException as e:  # engine bug: must not be swallowed as a pass
         return ("error", f"{item!r:.80}: {type(e).__name__}: {e}\n{traceback.format_exc(limit=8)}")
 
